@@ -3,4 +3,7 @@
 From Coq Require Import Extraction ExtrOcamlBasic.
 From V Require Import C12.Model.
 Extraction "c12_model.ml" step step_x init_state ok_input disciplined audit audit_has no_double_vote all_actions
-  decisions_agree f_of q_of.
+  decisions_agree f_of q_of
+  process_wal_x process_sync_x call_step_x call_inputs call_events call_impl_events ok_call disciplined_calls
+  wentry_input wal_of_action wlog_of wal_written replay_wal replay_actions wal_ok_input wal_disciplined
+  st_sim_b acts_eqb wal_replay_same.
